@@ -179,7 +179,7 @@ Proof.
       * unfold buf_send in E. destruct (s_pc st); try discriminate;
           (match type of E with context [if ?b then _ else _] => destruct b end; [|discriminate]);
           inversion E; subst; inversion H; subst; mnone.
-      * destruct (c_async c); [destruct (s_pc st); try discriminate|]; inversion H; subst; mnone.
+      * destruct (s_pc st); try discriminate; inversion H; subst; mnone.
     + destruct (s_closed st); inversion H; subst; mnone.
     + destruct (mem_N id (s_done st)); [|discriminate]. inversion H; subst; mnone.
     + destruct (mem_N id (s_done st)); [|discriminate]. destruct closing; inversion H; subst; mnone.
